@@ -217,6 +217,17 @@ int main(int argc, char **argv) {
     }
     pthread_barrier_wait(&bar);
     trace_some(nth, mps, &mr, mn - mn / 2, nkeys, fitkey[nth]);
+    /* the smallest non-empty stream: exactly one event without info (24 bytes in its only buffer) */
+    {
+        st_t *S1 = &st[nth + 1]; snprintf(S1->hr, sizeof S1->hr, "vf r%d single", rank);
+        parsec_profiling_stream_t *sps = parsec_profiling_stream_init(4096, "%s", S1->hr);
+        int q0 = -1; for (int q = 0; q < nkeys; q++) if (klen[q] == 0) { q0 = q; break; }
+        if (sps && q0 >= 0) {
+            ev_t e; e.key = ks[q0]; e.eid = 0x5151; e.tp = 7; e.flags = 0; e.len = 0; e.skey = 0;
+            if (0 == parsec_profiling_trace_flags(sps, e.key, e.eid, e.tp, NULL, 0)) { S1->ev = malloc(sizeof(ev_t)); S1->ev[0] = e; S1->n = 1; }
+            else vf_violation("trace:return", "single-event stream: trace failed");
+        }
+    }
     for (int t = 0; t < nth; t++) pthread_join(th[t], NULL);
     int rc = parsec_profiling_dbp_dump();
     if (rc != 0) vf_violation("dump:return", "parsec_profiling_dbp_dump returned %d (%s)", rc, parsec_profiling_strerror());
@@ -229,7 +240,7 @@ int main(int argc, char **argv) {
     for (int k = 0; k < nkeys; k++) fprintf(exp_file, "D %d %d %s %s %s\n", ks[k] / 2, klen[k], kattr[k] + strlen(kattr[k]) - 6, kname[k], kconv[k] ? kconv[k] : "-");
     for (int i = 0; i < ngi; i++) fprintf(exp_file, "G %s %zu %s\n", gik[i], strlen(giv[i]), giv[i]);
     long total = 0, switches = 0, exact = 0, waste = 0; int nstreams = 0;
-    for (int t = 0; t <= nth; t++) {
+    for (int t = 0; t <= nth + 1; t++) {
         st_t *S = &st[t]; if (!S->n) continue;
         nstreams++; total += S->n; switches += S->switches; exact += S->exact_fits; if (S->max_tail_waste > waste) waste = S->max_tail_waste;
         fprintf(exp_file, "T %ld %d %s\n", S->n, S->ninfo, S->hr);
